@@ -237,6 +237,9 @@ class ComponentContext:
     # shares this dictionary for storing callbacks that are called from within `component_post_render`.
     # This is so that we can pass them all in when the root component is passed to `component_post_render`.
     post_render_callbacks: Dict[str, Callable[[str], str]]
+    # Position of the RenderContext layer that was pushed for this component. The layer right below it
+    # belongs to the template that rendered this component (and that defined its fills).
+    render_context_index: Optional[int] = None
 
 
 class Component(
@@ -1072,6 +1075,7 @@ class Component(
             outer_context=snapshot_context(self.outer_context) if self.outer_context is not None else None,
             registry=self.registry,
             post_render_callbacks=post_render_callbacks,
+            render_context_index=len(context.render_context.dicts) - 1,
         )
 
         # Instead of passing the ComponentContext directly through the Context, the entry on the Context
